@@ -1,0 +1,51 @@
+/*
+ * Verification hooks (compiled in only with -DPARSEC_VERIF).
+ *
+ * Each hook is a predictable test of a function pointer that is NULL unless a
+ * verification harness installs a handler; with the guard off every macro
+ * expands to nothing.
+ */
+#ifndef PARSEC_VERIF_HOOKS_H_HAS_BEEN_INCLUDED
+#define PARSEC_VERIF_HOOKS_H_HAS_BEEN_INCLUDED
+
+#if defined(PARSEC_VERIF)
+
+/* kinds of yield points */
+#define PARSEC_VERIF_K_RMW    1   /* atomic read-modify-write / CAS, about to execute */
+#define PARSEC_VERIF_K_FENCE  2   /* memory fence */
+#define PARSEC_VERIF_K_SPIN   3   /* inside a spin-wait on a plain location */
+#define PARSEC_VERIF_K_READ   4   /* plain read of a shared location, about to execute */
+#define PARSEC_VERIF_K_UNLOCK 5   /* plain store releasing a lock, about to execute */
+
+typedef void (*parsec_verif_point_fn_t)(int kind, const volatile void *addr);
+typedef void (*parsec_verif_event_fn_t)(const char *what, long a, long b, long c, long d, long e);
+
+#if defined(__cplusplus)
+extern "C" {
+#endif
+extern __attribute__((visibility("default"))) parsec_verif_point_fn_t parsec_verif_point_fn;
+extern __attribute__((visibility("default"))) parsec_verif_event_fn_t parsec_verif_event_fn;
+#if defined(__cplusplus)
+}
+#endif
+
+#define PARSEC_VERIF_POINT(kind, addr)                                  \
+    do { if( (parsec_verif_point_fn_t)0 != parsec_verif_point_fn )      \
+             parsec_verif_point_fn((kind), (const volatile void*)(addr)); } while(0)
+/* statement prefix usable inside a spin loop: `while(cond) PARSEC_VERIF_SPIN(addr) body;` */
+#define PARSEC_VERIF_SPIN(addr)                                         \
+    if( ((parsec_verif_point_fn_t)0 != parsec_verif_point_fn) &&        \
+        (parsec_verif_point_fn(PARSEC_VERIF_K_SPIN, (const volatile void*)(addr)), 1) ) {} else
+#define PARSEC_VERIF_EVENT(what, a, b, c, d, e)                         \
+    do { if( (parsec_verif_event_fn_t)0 != parsec_verif_event_fn )      \
+             parsec_verif_event_fn((what), (long)(a), (long)(b), (long)(c), (long)(d), (long)(e)); } while(0)
+
+#else  /* defined(PARSEC_VERIF) */
+
+#define PARSEC_VERIF_POINT(kind, addr) do {} while(0)
+#define PARSEC_VERIF_SPIN(addr)
+#define PARSEC_VERIF_EVENT(what, a, b, c, d, e) do {} while(0)
+
+#endif /* defined(PARSEC_VERIF) */
+
+#endif /* PARSEC_VERIF_HOOKS_H_HAS_BEEN_INCLUDED */
